@@ -28,6 +28,11 @@ Definition mk_cfg (thr mul frac : Z) (unbond_del cursor_clamp : bool) : cfg :=
 Definition mk_light (a lo t : Z) : obs :=
   {| ob_acc := a + 10; ob_lastobs := lo; ob_total := t; ob_lastby := []; ob_atts := []; ob_pending := []; ob_oracles := [] |}.
 
+(* no observation: the operation is an internal stage of one real operation (a block boundary = Mature; SlashPass;
+   Refresh), only the state after the last stage is visible *)
+Definition mk_skip : obs :=
+  {| ob_acc := 20; ob_lastobs := 0; ob_total := 0; ob_lastby := []; ob_atts := []; ob_pending := []; ob_oracles := [] |}.
+
 Record hist := { h_cfg : cfg; h_ops : list (op * obs) }.
 Definition mk_hist (c : cfg) (l : list (op * obs)) : hist := {| h_cfg := c; h_ops := l |}.
 
@@ -72,6 +77,7 @@ Definition view_oracles (s : st) :=
   sort_by Z.leb (map (fun p => (fst p, (o_stake (snd p), o_online (snd p), o_bridger (snd p), o_slash (snd p)))) (oracles s)).
 
 Definition obs_ok (s : st) (r : res) (o : obs) : bool :=
+  if 20 <=? ob_acc o then true else
   if 10 <=? ob_acc o then
     (res_class r + 10 =? ob_acc o) && (last_obs s =? ob_lastobs o) && (last_total s =? ob_total o)
   else
